@@ -65,7 +65,7 @@ structure SizeOK (s : Stmt) : Prop where
   le : s.pkg.size ≤ s.pkg.maxSize
   und : s.fixedSize = false → s.pkg.choices ≠ [] →
     s.pkg.maxSize = s.pkg.size + 2 ∧ s.pkg.size = s.row.indSz ∧ s.pkg.needsRes = true
-  small : s.pkg.needsRes = true → s.fixedSize = true → s.pkg.size ≤ s.row.indSz + 2
+  small : s.pkg.choices ≠ [] → s.fixedSize = true → s.pkg.size ≤ s.row.indSz + 2
   /-- the op code of a PCR statement with post-byte choices is the indexed op code of its row -/
   op : s.pkg.choices ≠ [] → opVal s.row.ind = .ok s.pkg.opCode
   /-- a PCR statement settled on the 8-bit form is one byte longer than the indexed base size -/
@@ -121,11 +121,12 @@ theorem Fits8.mono {ss ss' : List Stmt} {i : Nat} {s : Stmt} (h : PW Narrow ss s
   · have := narrow_maxSum h rel i; have := h4 hb; omega
   · have := narrow_maxSum h i rel; have := h5 hb; omega
 
-/-- the list invariant: every statement is `SizeOK`; every PCR statement settled on the 8-bit form
+/-- the list invariant: every statement is `SizeOK`; every PCR statement (one with post byte choices; batch B3: `needsRes`
+alone no longer singles them out, a label offset of a pointer register has it too) settled on the 8-bit form
 satisfies `Fits8` with respect to the current list -/
 structure WInv (ss : List Stmt) : Prop where
   ok : ∀ (j : Nat) (s : Stmt), ss[j]? = some s → SizeOK s
-  fits : ∀ (j : Nat) (s : Stmt), ss[j]? = some s → s.fixedSize = true → s.pkg.needsRes = true → s.pcrHint = 2 → Fits8 ss j s
+  fits : ∀ (j : Nat) (s : Stmt), ss[j]? = some s → s.fixedSize = true → s.pkg.choices ≠ [] → s.pcrHint = 2 → Fits8 ss j s
 
 /-! ### settle / determine -/
 
@@ -342,7 +343,7 @@ theorem pcrLoop_winv (fuel : Nat) (ss : List Stmt) {fin : List Stmt} (h : pcrLoo
 /-! ### the invariant holds after `translateAll` -/
 
 theorem translateAll_winv : ∀ {a r : List Stmt}, translateAll a = some r →
-    ∀ (j : Nat) (s : Stmt), r[j]? = some s → SizeOK s ∧ (s.fixedSize = true → s.pkg.needsRes = false) ∧
+    ∀ (j : Nat) (s : Stmt), r[j]? = some s → SizeOK s ∧ (s.fixedSize = true ↔ s.pkg.choices = []) ∧
       LeftOK s.operand s.pkg := by
   intro a
   induction a with
@@ -365,25 +366,22 @@ theorem translateAll_winv : ∀ {a r : List Stmt}, translateAll a = some r →
         | zero =>
           simp at hs; subst hs
           obtain ⟨hw, hl⟩ := translateOperand_w hr
-          refine ⟨⟨hw.le, fun _ hc => ⟨(hw.und hc).1, (hw.und hc).2.1, (hw.und hc).2.2.1⟩, fun hn hf => ?_,
-            fun hc => (hw.und hc).2.2.2, fun hc hf _ => ?_⟩, fun hf => ?_, hl⟩
-          · have hf' : (!p.needsRes && p.choices.isEmpty) = true := hf
-            have hn' : p.needsRes = true := hn
-            rw [hn'] at hf'; simp at hf'
-          · have hf' : (!p.needsRes && p.choices.isEmpty) = true := hf
-            have hc' : p.choices ≠ [] := hc
-            cases hp : p.choices with
-            | nil => exact absurd hp hc'
-            | cons c cs => rw [hp] at hf'; simp at hf'
-          · have hf' : (!p.needsRes && p.choices.isEmpty) = true := hf
-            show p.needsRes = false
-            cases hp : p.needsRes with
-            | false => rfl
-            | true => rw [hp] at hf'; simp at hf'
+          have hiff : p.choices.isEmpty = true ↔ p.choices = [] := List.isEmpty_iff
+          refine ⟨⟨hw.le, fun _ hc => ⟨(hw.und hc).1, (hw.und hc).2.1, (hw.und hc).2.2.1⟩, fun hc hf => ?_,
+            fun hc => (hw.und hc).2.2.2, fun hc hf _ => ?_⟩, hiff, hl⟩
+          · exact absurd (hiff.1 hf) hc
+          · exact absurd (hiff.1 hf) hc
+
+/-- (batch B3) the statements the size loop works on are exactly those with post byte choices: a statement without
+choices — in particular a label offset of a pointer register, `needsRes` without choices — is fixed from the start
+(`pcrPass` skips it, `determine` never sees it) -/
+theorem translateAll_fixed_iff {a r : List Stmt} (h : translateAll a = some r) (j : Nat) (s : Stmt)
+    (hs : r[j]? = some s) : s.fixedSize = true ↔ s.pkg.choices = [] :=
+  (translateAll_winv h j s hs).2.1
 
 theorem translateAll_WInv {a r : List Stmt} (h : translateAll a = some r) : WInv r :=
   ⟨fun j s hs => (translateAll_winv h j s hs).1,
-   fun j s hs hf hn _ => by rw [(translateAll_winv h j s hs).2.1 hf] at hn; cases hn⟩
+   fun j s hs hf hn _ => absurd ((translateAll_winv h j s hs).2.1.1 hf) hn⟩
 
 /-! ### what the loop delivers -/
 
@@ -402,8 +400,8 @@ most the indexed base size plus 2 -/
 theorem pcrLoop_width {fuel : Nat} {ss2 fin : List Stmt} {a : List Stmt} (ht : translateAll a = some ss2)
     (h : pcrLoop fuel ss2 = .ok fin) :
     PW (fun s f => s.pkg.size ≤ f.pkg.size ∧ f.pkg.size ≤ s.pkg.maxSize ∧ (s.fixedSize = true → f = s)) ss2 fin ∧
-    (∀ (i : Nat) (f : Stmt), fin[i]? = some f → f.pkg.needsRes = true → f.pcrHint = 2 → Final8 fin i f) ∧
-    (∀ (i : Nat) (f : Stmt), fin[i]? = some f → f.pkg.needsRes = true → f.pkg.size ≤ f.row.indSz + 2) := by
+    (∀ (i : Nat) (f : Stmt), fin[i]? = some f → f.pkg.choices ≠ [] → f.pcrHint = 2 → Final8 fin i f) ∧
+    (∀ (i : Nat) (f : Stmt), fin[i]? = some f → f.pkg.choices ≠ [] → f.pkg.size ≤ f.row.indSz + 2) := by
   obtain ⟨hI, hpw⟩ := pcrLoop_winv fuel ss2 h (translateAll_WInv ht)
   have hall := pcrLoop_ok_allFixed fuel ss2 h
   have hfx : ∀ (i : Nat) (f : Stmt), fin[i]? = some f → f.fixedSize = true := fun i f hf => by
